@@ -324,12 +324,12 @@ def gate_trace_events(traces):
     return evs
 
 
-def validate_traces(wd, name, traces, cfg=None):
-    """Returns (accepted ids, rejected ids, states, transitions, steps matched)."""
+def _validate_chunk(wd, name, traces, cfg):
     ids = list(traces)
     evs = gate_trace_events(traces)
     if not evs:
         return [], [], 0, 0, 0
+    os.makedirs(wd, exist_ok=True)
     tf = os.path.join(wd, "core-%s.ndjson" % name)
     of = os.path.join(wd, "core-%s.out" % name)
     with open(tf, "w") as f:
@@ -347,3 +347,25 @@ def validate_traces(wd, name, traces, cfg=None):
     acc = [i for k, i in enumerate(with_steps) if res["accepted"][k]]
     rej = [i for k, i in enumerate(with_steps) if not res["accepted"][k]]
     return acc, rej, st, tr, len(evs)
+
+
+def validate_traces(wd, name, traces, cfg=None, chunk=20):
+    """Returns (accepted ids, rejected ids, states, transitions, steps matched).  The traces are validated in
+    parallel TLC runs of `chunk` traces each (the search itself is sequential: one register per trace)."""
+    from concurrent.futures import ThreadPoolExecutor
+    ids = list(traces)
+    if len(ids) <= chunk:
+        return _validate_chunk(wd, name, traces, cfg)
+    parts = [ids[i:i + chunk] for i in range(0, len(ids), chunk)]
+    acc, rej, st, tr, n = [], [], 0, 0, 0
+    with ThreadPoolExecutor(max_workers=core.NCPU) as ex:
+        futs = [ex.submit(_validate_chunk, os.path.join(wd, "vt-%s-%d" % (name, k)), name, {i: traces[i] for i in part}, cfg)
+                for k, part in enumerate(parts)]
+        for f in futs:
+            a, r, s1, t1, n1 = f.result()
+            acc += a
+            rej += r
+            st += s1
+            tr += t1
+            n += n1
+    return acc, rej, st, tr, n
